@@ -30,7 +30,7 @@ for sid in sorted(res):
     clean, patched, suite = res[sid]
     rc, replay, sig = chk.get(sid, (None, None, None))
     meta = {
-        'id': sid, 'breaks_property': pid, 'round': 2, 'summary': title[:200],
+        'id': sid, 'breaks_property': pid, 'round': int(os.environ.get('ROUND', '2')), 'summary': title[:200],
         'needs_to_manifest': 'see notes.md (written by the seeding agent: the specific input / condition the change needs)',
         'origin': 'independent sub-agent given only the property text, the sites used by earlier seeds, and its own scratch worktree',
         'confirmed': {'demo_passes_on_clean_tree': clean == 0, 'demo_fails_with_patch': patched != 0 or sid in history and 'demo confirmed by hand' in history[sid],
